@@ -18,7 +18,14 @@ def base_formulas():
     return [('EF', ('and', ('AX', P0), ('EG', P1))), ('bind', 'x', None, ('EU', ('or', X, ('EX', P0)), ('AG', P1))), ('and', attr, ('EX', ('not', attr))),
             ('exists', 'x', None, ('and', ('jump', 'x', ('AX', X)), ('EF', ('bind', 'xx', None, ('AX', XX))))), ('AU', ('EX', P0), ('or', ('AG', P1), ('EF', ('and', P0, P1)))),
             ('bind', 'x', 'd', ('and', ('EX', X), ('AF', ('bind', 'xx', None, ('EX', XX))))), ('forall', 'x', None, ('imp', ('EF', X), ('AG', ('EX', P1)))),
-            ('iff', ('EX', W), ('AX', ('EF', W))), ('exists', 'x', 'd', ('or', ('jump', 'x', ('EG', P0)), ('AF', ('AG', P0))))]
+            ('iff', ('EX', W), ('AX', ('EF', W))), ('exists', 'x', 'd', ('or', ('jump', 'x', ('EG', P0)), ('AF', ('AG', P0)))),
+            # the same closed sub-formula inside and outside a restricted scope (first occurrence inside)
+            ('and', ('not', ('exists', 'x', 'd', ('jump', 'x', ('EF', P0)))), ('exists', 'x', None, ('jump', 'x', ('EF', P0)))),
+            ('or', ('bind', 'x', 'd', ('and', ('AX', ('EX', P1)), X)), ('AX', ('EX', P1))),
+            ('and', ('exists', 'x', None, ('jump', 'x', ('AG', P1))), ('forall', 'x', 'd', ('jump', 'x', ('AG', P1))))]
+
+def all_occurrences(phi, sub):
+    return [path for path, s_ in G.positions(phi) if s_ == sub]
 
 def run(chk):
     thorough = chk.tier == 'thorough'
@@ -33,6 +40,14 @@ def run(chk):
         for (path, sub) in pos[:3 if thorough else 1]:
             sub_phi = G.replace(phi, path, ('wild', 'q1'))
             tasks.append({'n': 2, 'k': k, 'c': 0, 'entry': 'multi_ext_dirty', 'phis': [phi], 'texts': [S.show(sub_phi)], 'ctx_formulas': {'q1': sub}, 'extra_labels': sorted(S.labels(phi)[0] | S.labels(phi)[1])})
+        # every occurrence of one closed sub-formula replaced by the SAME wild-card (inside and outside restricted scopes)
+        for (path, sub) in pos:
+            occ = all_occurrences(phi, sub)
+            if len(occ) >= 2:
+                sub_phi = phi
+                for pth in occ: sub_phi = G.replace(sub_phi, pth, ('wild', 'q1'))
+                tasks.append({'n': 2, 'k': k, 'c': 0, 'entry': 'multi_ext_dirty', 'phis': [phi], 'texts': [S.show(sub_phi)], 'ctx_formulas': {'q1': sub}, 'extra_labels': sorted(S.labels(phi)[0] | S.labels(phi)[1])})
+                break
         # two simultaneous, non-overlapping replacements
         for (p1, s1) in pos:
             done = False
@@ -58,11 +73,19 @@ def e_uni(chk, thorough):
             pos = closed_positions(phi)
             if not pos: continue
             rng.shuffle(pos)
+            dup = [x for x in pos if len(all_occurrences(phi, x[1])) >= 2]
+            if dup: pos = dup + [x for x in pos if x not in dup]
             chosen = [pos[0]]
             for (p2, s2) in pos[1:]:
                 if all(p[:len(p2)] != p2 and p2[:len(p)] != p for p, _ in chosen) and len(chosen) < 2: chosen.append((p2, s2))
             sub_phi = phi; extra = {}
-            for i, (p, s) in enumerate(chosen):
+            occ = all_occurrences(phi, chosen[0][1])
+            if len(occ) >= 2:
+                chosen = [chosen[0]]
+                for pth in occ: sub_phi = G.replace(sub_phi, pth, ('wild', 'q0'))
+                extra['q0'] = {'t': 'mc', 'f': S.show(chosen[0][1])}
+            else:
+              for i, (p, s) in enumerate(chosen):
                 sub_phi = G.replace(sub_phi, p, ('wild', f'q{i}')); extra[f'q{i}'] = {'t': 'mc', 'f': S.show(s)}
             k = S.quant_depth(phi) or 1
             try: sess = UC.Session(inst, k, [{'phis': [phi], 'entry': 'ext_dirty'}, {'phis': [sub_phi], 'entry': 'ext_dirty'}, {'phis': [sub_phi], 'entry': 'ext'}], extra_ctx=extra)
@@ -80,7 +103,9 @@ def e_uni(chk, thorough):
                 if UC.check_equiv(chk, 'C10', sess, phi, a, name + ' [original == semantics]', 'substitution'):
                     UC.confirm(chk, 'C10', sess, phi, b, v.model, name, 'substitution')
             else: chk.obligation(name, 'E-UNI', 'timeout', v.seconds)
-            UC.check_equiv(chk, 'C10', sess, phi, sess.first(2), name + ' [sanitised entry point == semantics]', 'substitution', rdec=sess.dec_plain)
+            if sess.first(2) is None:
+                chk.obligation(name + ' [sanitised entry point]', 'E-UNI', 'violated'); chk.violation(name + ' [sanitised entry point]', 'substitution-error', {'instance': inst.name, 'aeon': inst.aeon, 'formula': S.show(sub_phi), 'answer': sess.runs[2]}, f'sanitising entry point fails on {S.show(sub_phi)}: {sess.runs[2]}')
+            else: UC.check_equiv(chk, 'C10', sess, phi, sess.first(2), name + ' [sanitised entry point == semantics]', 'substitution', rdec=sess.dec_plain)
     # plain formula through extended entry points with an empty context
     for inst in UC.instances(['U2', 'M2']):
         plain = [f for f in forms if not (S.labels(f)[0] | S.labels(f)[1])][:20 if thorough else 6]
